@@ -397,6 +397,9 @@ func defaultBound(tier string, sc *Scenario) int {
 		}
 		return 3
 	}
+	if sc.QZero {
+		return 0
+	}
 	if sc.QB > 0 {
 		return sc.QB
 	}
@@ -538,7 +541,7 @@ func parent(prop, tier, filter string, boundOverride int, budget time.Duration, 
 		return 2
 	}
 	if budget == 0 {
-		budget = 150 * time.Second
+		budget = 240 * time.Second
 		if tier == "thorough" {
 			budget = 10 * time.Minute
 		}
@@ -611,6 +614,7 @@ func parent(prop, tier, filter string, boundOverride int, budget time.Duration, 
 	boundDone := 99
 	var samples []any
 	var perScenario []map[string]any
+	byBound := map[string]int{}
 	var violLines []string
 	var knownLines []string
 	notes := map[string]int{}
@@ -638,6 +642,7 @@ func parent(prop, tier, filter string, boundOverride int, budget time.Duration, 
 			// sequential layers (one caller, bound 0 by construction) do not count
 			boundDone = r.Stats.BoundDone
 		}
+		byBound[fmt.Sprint(r.Stats.BoundDone)]++
 		perScenario = append(perScenario, map[string]any{"scenario": r.Scenario, "bound": r.Bound, "executions": r.Stats.Executions,
 			"complete": r.Stats.Complete, "pruned": r.Stats.Cut, "states": r.Stats.States, "steps": r.Stats.Steps, "distinct_outcomes": r.Outcomes,
 			"budget_hit": r.Stats.BudgetHit, "wall_s": r.WallS, "runs_with_timer_fire": r.Stats.TimerFireRuns,
@@ -713,6 +718,8 @@ func parent(prop, tier, filter string, boundOverride int, budget time.Duration, 
 				"distinct_outcomes":             outcomes,
 				"max_choice_points":             maxPoints,
 				"preemption_bound_completed":    boundDone,
+				"preemption_bound_note":         "minimum over the concurrent scenarios of the bound each one completed (sequential packs excluded); scenarios_by_bound_completed gives the distribution",
+				"scenarios_by_bound_completed":  byBound,
 				"scenarios":                     perScenario,
 				"step_caps_hit":                 stepcaps,
 				"exhaustive":                    exhaustive && stepcaps == 0,
